@@ -181,10 +181,18 @@ class Check(BaseCheck):
         # different texts that some normalisation (NFC/NFKC, case folding) would identify: still different texts, so exactly one of < = > holds
         vals += rnd.sample(['caf\u00e9', 'cafe\u0301', '\u00c5', 'A\u030a', '\u212b', '\ufb01', 'fi', '\u00df', 'ss', 'SS', '\u212a', 'K', 'k', '\u0130', 'i\u0307', 'I', '\u1e9e',
                             '\uff21', '\u00e9', 'e\u0301', '\u0301e', '\U00020000', '\ud55c', '\u1112\u1161\u11ab'], 8)
+        # every value together with its look-alike of ANOTHER type: a date and the texts that spell that very date (and its serial),
+        # as numbers have '2' and '10', logicals 'TRUE' and the blank ''.  A text is a text: above every number and date.
+        for d in [v for v in vals if isinstance(v, datetime.datetime)][:6] + [datetime.datetime(2020, 1, 31), datetime.datetime(2021, 12, 5, 18, 30)]:
+            if d not in vals:
+                vals.append(d)
+            vals += rnd.sample([d.strftime('%Y-%m-%d'), d.isoformat(), d.isoformat(' '), d.strftime('%d %b %Y'), d.strftime('%Y-%m-%d %H:%M'), d.strftime('%m/%d/%Y'), d.strftime('%B %d, %Y'),
+                                d.strftime('%Y/%m/%d'), d.strftime('%d.%m.%Y'), d.strftime('%H:%M:%S')], 3)
+        vals += ['43789', '43789.5', '61', 'FALSE', 'true', '0', '-1', '1E3', '1e3']
         while len(vals) < n + 60:
             vals.append(GV.gen(rnd, rnd.choice(classes)))
         rnd.shuffle(vals)
-        return vals[:max(n, 60)]
+        return vals[:max(n, 110)]
 
     def pairs(self, spec, rec):
         rnd = self.rng(spec)
